@@ -108,6 +108,9 @@ inductive Op where
   | suphandle (u : Nat) (keep : Bool)
   | supdrop (u a : Nat)                 -- `u` drops the stashed event of actor `a`
   | supexit (u : Nat)                   -- `u` is killed: inbox and stash are dropped, its children are killed
+  /-- `cast` (`rpc::cast`, `ActorRef::cast`, `cast!`, `DerivedActorRef::{cast, send_message}`): a
+  plain message carrying `v` is enqueued iff the actor accepts messages -/
+  | cast (a v : Nat)
   deriving Repr
 
 def accepting (s : S) (a : Nat) : Bool :=
@@ -316,6 +319,9 @@ def stepCore (s : S) : Op → S
       else s
     | none => s
   | .supexit u => supExit s u
+  | .cast a v =>
+    { s with actors := s.actors.modify a (fun x =>
+        if x.alive && !x.draining then { x with mailbox := x.mailbox ++ [.fwd v] } else x) }
 
 /-- A draining actor whose mailbox is empty has reached its drain marker: it stops by itself. -/
 def drainExits (s : S) : S :=
